@@ -383,7 +383,35 @@ func (sc *c16CKKS) runRefresh(d *c16Deploy, ct *rlwe.Ciphertext, m []*bignum.Com
 	params := d.params
 	level := ct.Level()
 	e2sLevel := sc.minLevel + ch.Draw("e2s-level", level-sc.minLevel+1)
-	outLevel := ch.Draw("output-level", params.MaxLevelQ()+1)
+	// output parameters: the input ones, or (parameter switching) another modulus chain and default scale over the
+	// same ring, with the parties' secrets for that chain
+	cpOut, sksOut, idealOut, scOut := cp, d.sks, d.ideal, sc
+	if ch.Chance("switch-parameters", 1, 3) {
+		spec := catalog.DrawRLWESpec(ch, catalog.SpecOpts{MinLogN: cp.LogN(), MaxLogN: cp.LogN(), MinQ: 1, MaxQ: 4, MinP: 0, MaxP: 1, MinBits: 42, MaxBits: 58})
+		spec.RingType = cp.RingType()
+		logScale := 20 + ch.Draw("out-log-scale", 12)
+		key := fmt.Sprintf("ckks/%s/S%d", spec.Key(), logScale)
+		c := ctx.Cached(key, func(*core.Xoshiro) any {
+			p, err := ckks.NewParametersFromLiteral(ckks.ParametersLiteral{LogN: spec.LogN, LogQ: spec.LogQ, LogP: spec.LogP, LogDefaultScale: logScale, RingType: spec.RingType})
+			if err != nil {
+				return err
+			}
+			return &p
+		})
+		if p, ok := c.(*ckks.Parameters); ok && p.RingType() == cp.RingType() {
+			cpOut = *p
+			kgen := rlwe.NewKeyGenerator(cpOut.Parameters)
+			sksOut = make([]*rlwe.SecretKey, d.n)
+			for i := range sksOut {
+				sksOut[i] = kgen.GenSecretKeyNew()
+			}
+			idealOut = addSK(cpOut.Parameters, sksOut)
+			scOut = &c16CKKS{params: cpOut, prec: sc.prec, enc: ckks.NewEncoder(cpOut, sc.prec)}
+			ctx.Count("probe.parameter-switching", 1)
+		}
+	}
+	paramsOut := cpOut.Parameters
+	outLevel := ch.Draw("output-level", paramsOut.MaxLevelQ()+1)
 	name := "ckks.Refresh"
 	var tf *mpckks.MaskedLinearTransformationFunc
 	want := make([]*bignum.Complex, len(m))
@@ -444,7 +472,7 @@ func (sc *c16CKKS) runRefresh(d *c16Deploy, ct *rlwe.Ciphertext, m []*bignum.Com
 	if p := sc.logBound + 96; p > tprec {
 		tprec = p
 	}
-	mt0, err := mpckks.NewMaskedLinearTransformationProtocol(cp, cp, tprec, d.noise)
+	mt0, err := mpckks.NewMaskedLinearTransformationProtocol(cp, cpOut, tprec, d.noise)
 	if err != nil {
 		ctx.Fail("protocol", name+"|constructor", "NewMaskedLinearTransformationProtocol failed: %v", err)
 		return false
@@ -461,11 +489,11 @@ func (sc *c16CKKS) runRefresh(d *c16Deploy, ct *rlwe.Ciphertext, m []*bignum.Com
 		if i > 0 && ch.Bool("proto-by-shallowcopy") {
 			p = mt0.ShallowCopy()
 		} else if i > 0 {
-			p, _ = mpckks.NewMaskedLinearTransformationProtocol(cp, cp, tprec, d.noise)
+			p, _ = mpckks.NewMaskedLinearTransformationProtocol(cp, cpOut, tprec, d.noise)
 		}
 		s := p.AllocateShare(e2sLevel, outLevel)
 		var gerr error
-		pk, site, msg := core.Protect(func() { gerr = p.GenShare(d.sks[i], d.sks[i], sc.logBound, ct, crp, tf, &s) })
+		pk, site, msg := core.Protect(func() { gerr = p.GenShare(d.sks[i], sksOut[i], sc.logBound, ct, crp, tf, &s) })
 		if pk || gerr != nil {
 			ctx.Fail("protocol", name+".GenShare", "GenShare (ct level %d, e2s level %d >= minimum %d, output level %d) failed: panic=%v %s %s err=%v", level, e2sLevel, sc.minLevel, outLevel, pk, site, msg, gerr)
 			return false
@@ -492,7 +520,7 @@ func (sc *c16CKKS) runRefresh(d *c16Deploy, ct *rlwe.Ciphertext, m []*bignum.Com
 			if ok, w := eqPoly(params.RingQ(), x.EncToShareShare.Value, y.EncToShareShare.Value); !ok {
 				return false, "e2s part " + w
 			}
-			return eqPoly(params.RingQ(), x.ShareToEncShare.Value, y.ShareToEncShare.Value)
+			return eqPoly(paramsOut.RingQ(), x.ShareToEncShare.Value, y.ShareToEncShare.Value)
 		},
 		ser: func(ctx *core.RunCtx, s any) (any, bool) {
 			return transit(ctx, s.(*multiparty.RefreshShare), new(multiparty.RefreshShare), true, "RefreshShare")
@@ -509,8 +537,8 @@ func (sc *c16CKKS) runRefresh(d *c16Deploy, ct *rlwe.Ciphertext, m []*bignum.Com
 	}
 	in := ct.CopyNew()
 	out := in
-	if ch.Bool("distinct-output") {
-		out = ckks.NewCiphertext(cp, 1, ch.Draw("out-alloc-level", params.MaxLevelQ()+1))
+	if ch.Bool("distinct-output") || !paramsOut.Equal(&params) {
+		out = ckks.NewCiphertext(cpOut, 1, ch.Draw("out-alloc-level", paramsOut.MaxLevelQ()+1))
 		if ch.Bool("dirty-output-metadata") {
 			out.Scale = rlwe.NewScale(12345)
 			out.IsBatched = false
@@ -532,7 +560,7 @@ func (sc *c16CKKS) runRefresh(d *c16Deploy, ct *rlwe.Ciphertext, m []*bignum.Com
 		ctx.Fail("metadata", name+"|output-level", "output is at level %d, requested %d", out.Level(), outLevel)
 		return false
 	}
-	def := cp.DefaultScale()
+	def := cpOut.DefaultScale()
 	if out.Scale.Cmp(def) != 0 {
 		ctx.Fail("metadata", name+"|output-scale", "output scale is %v, the parameters' default scale %v was expected", &out.Scale.Value, &def.Value)
 		return false
@@ -549,7 +577,7 @@ func (sc *c16CKKS) runRefresh(d *c16Deploy, ct *rlwe.Ciphertext, m []*bignum.Com
 	fresh := float64(2*params.N())*float64(d.B) + float64(d.B) + 2 // fresh encryption noise of the input (sk encryption: B) plus encoding rounding
 	tol := nRing*(fresh+float64(d.n)*sb)/inScale + nRing*(float64(d.n)*sb+float64(d.n)+4)/outScale + 1e-9
 	ctx.Count("oracle.message-model", 1)
-	dist, w := sc.decodeCmp(ctx, out, d.ideal, want)
+	dist, w := scOut.decodeCmp(ctx, out, idealOut, want)
 	if w != "" {
 		ctx.Fail("message", name+"|decode", "%s", w)
 		return false
